@@ -55,7 +55,8 @@ def run_instance(args):
         eng = core.Engine(branch_timeout_ms=opts['branch_ms'], ob_timeout_ms=opts['ob_ms'],
                           max_paths=opts.get('max_paths', 4000))
         signal.signal(signal.SIGALRM, _alarm)
-        signal.alarm(int(ins.timeout * opts.get('time_scale', 1)))
+        limit = min(ins.timeout, opts.get('cap_s', 10 ** 9)) * opts.get('time_scale', 1)
+        signal.alarm(int(limit))
         try:
             res = eng.explore(ins.fn, ins.params, SymCx)
             timed_out = False
@@ -82,7 +83,7 @@ def run_instance(args):
         status = 'ok'
         why = []
         if timed_out:
-            status = 'inconclusive'; why.append('instance timeout after %ds' % ins.timeout)
+            status = 'inconclusive'; why.append('instance timeout after %ds' % int(limit))
         if aborts:
             status = 'inconclusive'; why.append('%d aborted paths: %s' % (len(aborts), aborts[0]['why'][:300]))
         if cnt.get('unknown'):
@@ -166,7 +167,7 @@ def main(argv=None):
     random.Random(seed).shuffle(order)
     order.sort(key=lambda i: -i.timeout)        # long ones first
     opts = {'branch_ms': 8000 if tier == 'quick' else 30000, 'ob_ms': 20000 if tier == 'quick' else 90000,
-            'time_scale': 1 if tier == 'quick' else 3}
+            'time_scale': 1 if tier == 'quick' else 3, 'cap_s': 420 if tier == 'quick' else 10 ** 9}
     opts.update(getattr(mod, 'OPTS', {}).get(tier, {}))
     from . import selfcheck
     sc = selfcheck.run(seed)
